@@ -157,10 +157,12 @@ func (p *producer) ledgerReadScript(o Op) ([]byte, string) {
 		emit.AppCall(w.BinWriter, nativehashes.LedgerContract, "getTransactionFromBlock", 0x0f, int64(idx), ti)
 		emit.Opcodes(w.BinWriter, opcode.ISNULL)
 		what = fmt.Sprintf("getTransactionFromBlock(%d, %d of %d)", idx, ti, ntx)
+		p.txFromBlockReads = append(p.txFromBlockReads, [2]uint32{h + 1, idx})
 	case 5:
 		emit.AppCall(w.BinWriter, nativehashes.LedgerContract, "getTransactionFromBlock", 0x0f, bc.GetHeaderHash(idx), ti)
 		emit.Opcodes(w.BinWriter, opcode.ISNULL)
 		what = fmt.Sprintf("getTransactionFromBlock(hash of %d, %d of %d)", idx, ti, ntx)
+		p.txFromBlockReads = append(p.txFromBlockReads, [2]uint32{h + 1, idx})
 	case 6:
 		emit.AppCall(w.BinWriter, nativehashes.LedgerContract, "getTransactionSigners", 0x0f, txOf())
 		emit.Opcodes(w.BinWriter, opcode.ISNULL)
@@ -217,6 +219,19 @@ func (p *producer) ledgerReadScript(o Op) ([]byte, string) {
 // has no execution results for their transactions).
 func (r *run) ledgerVMStateOfBlockUpTo(x, upTo uint32) bool {
 	for _, rd := range r.prod.vmStateReads {
+		if rd[0] == x && rd[1] <= upTo {
+			return true
+		}
+	}
+	return false
+}
+
+// ledgerTxFromBlockUpTo tells whether the block the producer made at height x holds a script that asks the native Ledger
+// contract for a transaction of a block with index <= upTo by block and position (recorded finding F-led-2: a
+// state-synchronised node holds the blocks of the traceable window before its sync point without the transactions'
+// contents; getTransactionFromBlock faults there - "transaction does not have signers" - where other nodes answer).
+func (r *run) ledgerTxFromBlockUpTo(x, upTo uint32) bool {
+	for _, rd := range r.prod.txFromBlockReads {
 		if rd[0] == x && rd[1] <= upTo {
 			return true
 		}
